@@ -645,7 +645,22 @@ func (c *Ctx) strLit(s string) string {
 	if c.declared["bat"] {
 		c.strLitBytes(s, n)
 	}
+	if c.declared["bcat"] {
+		c.strLitUnits(s, n)
+	}
 	return n
+}
+
+// strLitUnits: a short literal is the concatenation of its bytes (ground instance of T-Bytes).
+func (c *Ctx) strLitUnits(s, n string) {
+	if len(s) == 0 || len(s) > 16 || c.bv {
+		return
+	}
+	t := fmt.Sprintf("(bunit %d)", s[len(s)-1])
+	for i := len(s) - 2; i >= 0; i-- {
+		t = fmt.Sprintf("(bcat (bunit %d) %s)", s[i], t)
+	}
+	c.decls = append(c.decls, fmt.Sprintf("(assert (= %s %s))", n, t))
 }
 
 func (c *Ctx) strLitBytes(s, n string) {
